@@ -310,6 +310,9 @@ def main():
   nouter = nrand // 4
   for i in range(nouter):
     items.append((len(items), progen.random_program(a.seed * 9000011 + i, size=2 + (i % 4), avoid=avoid, features=('outerraise',)), 6, 32))
+  # one more: programs that delete an ELEMENT of the list parameter (`del a[0]` does not redefine `a`), family 'delitem'
+  for i in range(nrand // 6):
+    items.append((len(items), progen.random_program(a.seed * 7000003 + i, size=2 + (i % 4), avoid=avoid, features=('delitem',)), 6, 32))
   runs = checked = free = dead = nontrivial = errors = 0
   best = {}        # kind:sig -> failure with the smallest program
   counts, cov = {}, {}
